@@ -858,6 +858,25 @@ pub fn scenarios(p: &SParams, directed: bool) -> Vec<Scenario> {
                     }
                 }
             }
+            "iso12" => {
+                // isolate (the only operation with a snapshot-then-lock protocol)
+                // against two consecutive mutations that touch the isolated node
+                let touching: Vec<Call> = m1.iter().filter(|c| c.nodes().contains(&0)).cloned().collect();
+                for b1 in &touching {
+                    for b2 in &touching {
+                        out.push(Scenario { n: p.n, init: init.clone(), addr_order: vec![], threads: vec![vec![Call::Mut(Op::Isolate(0))], vec![*b1, *b2]] });
+                    }
+                }
+            }
+            "12m" => {
+                for a in &m0 {
+                    for b1 in &m1 {
+                        for b2 in &m1 {
+                            out.push(Scenario { n: p.n, init: init.clone(), addr_order: vec![], threads: vec![vec![*a], vec![*b1, *b2]] });
+                        }
+                    }
+                }
+            }
             other => panic!("GDSL_MC_HARNESS: unknown scenario shape {}", other),
         }
     }
@@ -868,10 +887,47 @@ pub fn scenarios(p: &SParams, directed: bool) -> Vec<Scenario> {
         for pm in &perms {
             let mut s2 = sc.clone();
             s2.addr_order = pm.clone();
+            // scenarios equal up to renaming of the nodes are generated once
+            if p.shape == "12m" && !is_canonical(&s2) {
+                continue;
+            }
             all.push(s2);
         }
     }
     all
+}
+
+fn rename_call(c: &Call, m: &[K]) -> Call {
+    let r = |k: K| m[k as usize];
+    match *c {
+        Call::Mut(Op::Connect(u, v, e)) => Call::Mut(Op::Connect(r(u), r(v), e)),
+        Call::Mut(Op::TryConnect(u, v, e)) => Call::Mut(Op::TryConnect(r(u), r(v), e)),
+        Call::Mut(Op::Disconnect(u, v)) => Call::Mut(Op::Disconnect(r(u), r(v))),
+        Call::Mut(Op::Isolate(u)) => Call::Mut(Op::Isolate(r(u))),
+        Call::Degree(u) => Call::Degree(r(u)),
+        Call::InDegree(u) => Call::InDegree(r(u)),
+        Call::IsOrphan(u) => Call::IsOrphan(r(u)),
+        Call::IsConnected(u, v) => Call::IsConnected(r(u), r(v)),
+        Call::Find(u, v) => Call::Find(r(u), r(v)),
+        Call::Collect(u) => Call::Collect(r(u)),
+        Call::CollectIn(u) => Call::CollectIn(r(u)),
+        Call::Bfs(u, v) => Call::Bfs(r(u), r(v)),
+    }
+}
+
+/// Is the scenario the smallest among its images under all node renamings?
+fn is_canonical(sc: &Scenario) -> bool {
+    let key = |init: &Vec<Arc3>, th: &Vec<Vec<Call>>, ao: &Vec<K>| format!("{:?}|{:?}|{:?}", th, init, ao);
+    let mine = key(&sc.init, &sc.threads, &sc.addr_order);
+    for m in permutations(sc.n) {
+        let init: Vec<Arc3> = sc.init.iter().map(|(u, v, e)| (m[*u as usize], m[*v as usize], *e)).collect();
+        let th: Vec<Vec<Call>> = sc.threads.iter().map(|t| t.iter().map(|c| rename_call(c, &m)).collect()).collect();
+        let ao: Vec<K> = sc.addr_order.iter().map(|k| m[*k as usize]).collect();
+        if key(&init, &th, &ao) < mine {
+            return false;
+        }
+    }
+    true
 }
 
 fn has_open_pair(sc: &Scenario, open: &[String]) -> bool {
